@@ -60,11 +60,27 @@ class Analysis:
         if self.tier == 'thorough':
             kw.setdefault('loop_bound', 2)
         keep = kw.pop('keep', None)
+        transparent = kw.pop('transparent', 'default')
+        fresh_lists = kw.pop('fresh_lists', False)
         en = Enumerator(self.model, **kw)
+        en.fresh_lists = fresh_lists
+        if transparent == 'default':
+            anchors = self.anchors()
+            en.transparent = lambda f: f.qualname not in anchors
+        elif transparent is not None:
+            en.transparent = transparent
         if keep is not None:
             names = set(keep) if not callable(keep) else None
             en.keep = keep if callable(keep) else (lambda n, v, f: n in names)
         return en
+
+    _anchors = None
+
+    def anchors(self):
+        if Analysis._anchors is None:
+            path = os.path.join(VERIF, 'spec', 'anchors.json')
+            Analysis._anchors = set(json.load(open(path))['functions'])
+        return Analysis._anchors
 
     def paths(self, en, qual, ctx=None, args=None):
         fi = self.model.func(qual) if isinstance(qual, str) else qual
@@ -107,6 +123,15 @@ class Analysis:
         if count < minimum:
             raise AnalysisError('%s: instance floor not met for %s: matched %d < %d'
                                 % (rule, what, count, minimum))
+
+    def require(self, rule, what, count, minimum, site=None, key=None, behaviour=None):
+        """Like floor(), for constructs whose absence is itself the defect (a success path,
+        a refusal branch): the function exists but no path of it has the required shape."""
+        if count < minimum:
+            self.violated(rule, what, site, key, 'matched %d path(s), need %d' % (count, minimum),
+                          behaviour)
+            return False
+        return True
 
     def sample(self, s):
         if len(self.samples) < 12:
